@@ -220,6 +220,7 @@ class Contract:
 class State:
     def __init__(self, env, heap, pc):
         self.aux = {}
+        self.tags = {}  # index in pc -> clause name
         self.env = env
         self.heap = heap
         self.pc = pc
@@ -235,12 +236,17 @@ class State:
         s.exc = self.exc
         s.pure = self.pure
         s.aux = dict(self.aux)
+        s.tags = dict(self.tags)
         return s
 
-    def assume(self, fact):
+    def assume(self, fact, tag=None):
+        """tag = name of the contract clause / invariant conjunct the fact comes from (None for
+        path facts); used to hide hypotheses an obligation does not need"""
         if z3.is_true(fact):
             return
         self.pc.append(fact)
+        if tag is not None:
+            self.tags[len(self.pc) - 1] = tag
 
 
 @dataclass
@@ -255,6 +261,7 @@ class Obligation:
     detail: str = ""
     heaps: dict = field(default_factory=dict)  # for model decoding
     result: object = None
+    tags: dict = field(default_factory=dict)
 
 
 class IterView:
@@ -316,6 +323,7 @@ class Engine:
             goal=goal,
             detail=detail,
             heaps={"h0": self.h0, "h": st.heap, "args": self.args0},
+            tags=dict(st.tags),
         )
         self.obligations.append(ob)
 
@@ -487,7 +495,7 @@ class Engine:
         st.env = dict(args)
         c0 = Ctx(self, h0, h0, args)
         for nm, p in contract.requires(c0):
-            st.assume(p)
+            st.assume(p, nm)
         # vacuity guard: the precondition must be satisfiable
         self.cover_pc = list(st.pc)
         self.anchors_hit = set()
@@ -579,7 +587,7 @@ class Engine:
             if isinstance(objs, list) and not fresh_may_have(name):
                 a1 = a0
                 for o in objs:
-                    a1 = z3.Store(a1, o, fresh(f"hv_{name}"))
+                    a1 = z3.Store(a1, o, fresh(f"hv_{name}", a0.sort().range()))
                 hn.fields[name] = a1
             elif isinstance(objs, str) and objs == "ALL":
                 hn.fields[name] = fresh(f"F_{name}", a0.sort())
@@ -1032,7 +1040,7 @@ class Engine:
             head.assume(z3.And(i >= 0, i < n))
         if spec.invariant:
             for nm, p in spec.invariant(lctx(head, i)):
-                head.assume(p)
+                head.assume(p, nm)
         results = []
         if is_for:
             item = view.get(hl, i)
@@ -1072,12 +1080,12 @@ class Engine:
             exit_st.assume(n >= 0)
             if spec.invariant:
                 for nm, p in spec.invariant(lctx(exit_st, i)):
-                    exit_st.assume(p)
+                    exit_st.assume(p, nm)
             results.append(exit_st)
         else:
             if spec.invariant:
                 for nm, p in spec.invariant(lctx(exit_st, i)):
-                    exit_st.assume(p)
+                    exit_st.assume(p, nm)
             for e2, cv in self.ev(s.test, exit_st):
                 if e2.status != "run":
                     results.append(e2)
@@ -1894,7 +1902,7 @@ class Engine:
                 st.pure.append((p, f"pre:{con.name}:{nm}", node))
             else:
                 self.oblige(st, f"call-pre:{con.name}:{nm}@{line}", p, "call-pre", node)
-                st.assume(p)
+                st.assume(p, nm)
         out = []
         whens = []
         for exn, label, when in con.raises(c0):
@@ -1928,7 +1936,7 @@ class Engine:
             if rty.kind != "none" else VNONE
         c1 = Ctx(self, h0, st.heap, bound, res, extra=extra)
         for nm, p in con.ensures(c1):
-            st.assume(p)
+            st.assume(p, nm)
         out.append((st, res))
         return out
 
